@@ -436,7 +436,7 @@ def tag_ev(prog, mode):
 
 def qos_tla(q):
     return ("[maxpubs |-> %d, maxsubs |-> %d, bufmax |-> %d, hist |-> %d, borrow |-> %d, loan |-> %d, "
-            "overflow |-> %s, strategy |-> \"%s\"]" % (q["maxpubs"], q["maxsubs"], q["bufmax"], q["hist"], q["borrow"],
+            "overflow |-> %s, strategy |-> \"%s\", expbuf |-> 64]" % (q["maxpubs"], q["maxsubs"], q["bufmax"], q["hist"], q["borrow"],
                                                       q["loan"], "TRUE" if q["overflow"] else "FALSE", q["strategy"]))
 
 
@@ -710,8 +710,7 @@ def run(ctx):
         "channel / request ids are unobservable through the C API: a run that equals its Rust-only run on everything "
         "observable is validated with the channel ids of that run; a divergent run leaves them to TLC",
         "a trace that is identical (on every field a specification reads) to a validated one is not validated again",
-        "copy-send at the loan limit is exercised only by dedicated witness programs (known finding): generated programs "
-        "are cut before such a call",
+        "per-job heap accounting compares the C-only with the Rust-only process (same jobs, same order)",
     ]
     # ---- 1. error table: dumped from the running code, clauses evaluated by TLC; side by side TLC generates programs ---
     sel = ctx.seed % 3
@@ -742,13 +741,10 @@ def run(ctx):
     runs, _, err = execute(ctx, table, [job_of(pr, "rust", i) for i, pr in enumerate(programs)], "pass1-rust")
     if err or len(runs) != len(programs):
         raise vp.ToolError(f"the Rust-only reference pass failed: {err} ({len(runs)} of {len(programs)} runs)")
-    cut = 0
-    for pr, r in zip(programs, runs):
-        k = copy_send_loan_failure(pr.pat, r)
-        if k is not None and pr.origin != "witness":
-            pr.prog = pr.prog[:k]
-            cut += 1
-    ctx.coverage["programs_cut_before_known_copy_send_shape"] = cut
+    # (until bf6e4d3 generated programs were cut before a copy-send at the loan limit - the error-space defect of the
+    # *_send_copy functions; it is repaired, nothing is cut any more)
+    ctx.coverage["programs_with_a_copy_send_at_the_loan_limit"] = sum(
+        1 for pr, r in zip(programs, runs) if copy_send_loan_failure(pr.pat, r) is not None)
 
     # ---- 3. execution: Rust-only, C-only, mixed ---------------------------------------------------------------------
     by_mode = {}
@@ -756,6 +752,7 @@ def run(ctx):
         for mode in modes_of(pr, i, quick):
             by_mode.setdefault(mode, []).append((i, pr))
     counts, crashes = {}, []
+    heap_by_mode = {}
     for mode, items in sorted(by_mode.items()):
         jobs = [job_of(pr, mode, i) for i, pr in items]
         runs, summ, err = execute(ctx, table, jobs, f"mode-{mode}")
@@ -776,7 +773,35 @@ def run(ctx):
                 ctx.note(f"{summ['panics']} run(s) in mode {mode} ended in a panic of the code under test")
         for (i, pr), r in zip(items, runs):
             pr.runs[mode] = r
+        if not err and len(summ.get("heap", [])) == len(items):
+            heap_by_mode[mode] = [(i, h[0]) for (i, _), h in zip(items, summ["heap"])]
         ctx.evaluations += len(runs)
+    # ---- 3b. "dropping a C handle releases exactly the object it wraps (no leak ...)": the driver counts the heap blocks
+    # that a job leaves behind after everything was dropped (counting global allocator); the C-only process executes
+    # the same jobs in the same order as the Rust-only process, so the per-job numbers must agree (they do, exactly,
+    # on a tree without leaks: one-time allocations happen in the same job in both processes)
+    hr, hc = heap_by_mode.get("rust"), heap_by_mode.get("c")
+    if hr and hc:
+        n = 0
+        while n < min(len(hr), len(hc)) and hr[n][0] == hc[n][0]:
+            n += 1
+        excess = [(hr[k][0], hc[k][1] - hr[k][1]) for k in range(n) if hc[k][1] > hr[k][1]]
+        ctx.coverage["heap_accounting"] = {"jobs_compared": n, "jobs_where_the_c_front_end_leaves_more_blocks": len(excess)}
+        if excess:
+            i = excess[0][0]
+            pr = programs[i]
+            acts = {}
+            for e in pr.runs.get("c", []):
+                if e.get("k") == "op" and e.get("r") not in (None, "ok", "some", "none"):
+                    acts[f"{e.get('a')}:{e.get('r')}"] = acts.get(f"{e.get('a')}:{e.get('r')}", 0) + 1
+            ctx.report(vp.Violation(
+                f"heap accounting: in {len(excess)} of {n} programs the C front end leaves more heap blocks behind than the Rust "
+                f"front end after everything was dropped (e.g. program #{i} ({pr.pat}, {pr.origin}): {excess[0][1]} blocks more; "
+                f"failing calls in that run: {acts}) - a C call leaks the storage of a handle it never hands out, or a drop "
+                f"function does not release what it wraps",
+                replay={"kind": "leak", "program": i, "pat": pr.pat, "excess_blocks_per_program": excess[:40],
+                        "job": job_of(pr, "c", i)},
+                signature=f"leak:c:{pr.pat}"))
     ctx.coverage["programs"] = sum(1 for pr in programs if "rust" in pr.runs and "c" in pr.runs)
     ctx.coverage["executions"] = ctx.evaluations
     ctx.distinct = len({json.dumps([pr.pat, pr.cfg, pr.prog], sort_keys=True) for pr in programs})
